@@ -77,6 +77,8 @@ def table_obligations(r):
     for s, (acc, ign) in enumerate(r.acts):
         if acc == -1 and ign == "":
             probs.append("state %d has neither Accept nor Ignore" % s)
+        if acc == 1:
+            probs.append("state %d accepts with the reserved end-of-input type 1" % s)
     for s, row in enumerate(r.rows):
         for (lo, hi, nx) in row["cases"]:
             if not (-1 <= nx < n):
